@@ -408,3 +408,15 @@ Example ex_trace_result :
   let s := exec init ex_trace in
   sent s = [((2, 0), 3); ((2, 0), 1); ((2, 0), 0)] /\ skipped s = [((2, 0), 4)] /\ pcs s 2 = Some (Pick, []).
 Proof. vm_compute. auto. Qed.
+
+(* ------------------------------------------------------------------------------------------ *)
+(* The literal statement ("every watcher that is still running and did not unwatch receives exactly one")
+   fails across the watcher's own restart: the restart shuts the watcher down first and freeWatchees drops
+   its watches; nothing registers them again. Harness operations: 2 watches 3; 2 restarts; 3 stops. *)
+Definition is_unwatch (o : sop) : bool := match o with OUnWatch _ _ => true | _ => false end.
+
+Theorem watcher_restart_refuted : exists (n : nat) (ops : list sop) (w a : nat),
+  existsb is_unwatch ops = false /\ In (OWatch w a) ops /\
+  let s := fold_left apply_sop ops (world0 n) in
+  is_running s w = true /\ is_running s a = false /\ terminated_for s w = [].
+Proof. exists 3, [OWatch 2 3; ORestart 2; OStop 3], 2, 3. vm_compute. intuition. Qed.
